@@ -225,6 +225,7 @@ func (w *WaitGroup) Go(f func()) {
 	w.Add(1)
 	go func() {
 		defer w.Done()
+		sched.Yield("go")
 		f()
 	}()
 }
